@@ -5,6 +5,7 @@ Wire format of the value layer (C15/C16 drivers): prefix tokens with explicit co
 
 value   := N | U | T | F | I <int> | <float> | S <str> | L <n> value* | P <n> value*
          | D <n> (<str> value)* | O <tag> <builtin:0|1> (0 | 1 <str>)
+         | J <n> value*  (other iterable) | M <n> (<str> value)*  (non-dict Mapping)
 float   := Fn | Fi <neg:0|1> | Ff <neg:0|1> <m> <e>
 str     := <len> <cp>*
 literal := v <str> | i <str> | f <str> | s <str> | bt | bf | n | e <str> | l <n> literal*
@@ -89,6 +90,17 @@ partial def pVal : P PyVal := fun ts => do
       let (v, ts) ← pVal ts
       pure ((k, v), ts)) n ts
     pure (.dict xs, ts)
+  | "J" => do
+    let (n, ts) ← pNat ts
+    let (xs, ts) ← pCount pVal n ts
+    pure (.iter xs, ts)
+  | "M" => do
+    let (n, ts) ← pNat ts
+    let (xs, ts) ← pCount (fun ts => do
+      let (k, ts) ← pStr ts
+      let (v, ts) ← pVal ts
+      pure ((k, v), ts)) n ts
+    pure (.mapping xs, ts)
   | "O" => do
     let (tag, ts) ← pNat ts
     let (b, ts) ← pBit ts
@@ -222,6 +234,8 @@ partial def showVal : PyVal → String
   | .tuple xs => " ".intercalate (s!"P {xs.length}" :: xs.map showVal)
   | .dict kvs => " ".intercalate (s!"D {kvs.length}" :: kvs.map (fun (k, v) => showStr k ++ " " ++ showVal v))
   | .other o => s!"O {o.tag}"
+  | .iter xs => " ".intercalate (s!"J {xs.length}" :: xs.map showVal)
+  | .mapping kvs => " ".intercalate (s!"M {kvs.length}" :: kvs.map (fun (k, v) => showStr k ++ " " ++ showVal v))
 
 partial def showLit : Lit → String
   | .var s => "v " ++ showStr s
